@@ -969,7 +969,31 @@ def cross_layout(ctx, scratch, cov):
                           "local sigma on a %dx%d image with DC offset 1024" % (nslice, db, dr, rows, cols),
                           "stripe_dependence|rows=%d,cols=%d,nslice=%d" % (rows, cols, nslice), clause="cross_layout",
                           case=dict(nslice=nslice, cores=cores))
-    cov["cross_layout"] = dict(max_abs_difference_in_sigma=worst, threshold=0.25, image=[rows, cols], grid=grid, box=box)
+    # non-square boxes / grids on a ramp: the halo a stripe borrows must follow the ROW extent of the box
+    worst2 = 0.0
+    f2 = os.path.join(scratch, "c07_cross2.fits")
+    E.make_image(f2, 128, 64, nan_block=False, offset=16.0, seed=11, slope=0.05)
+    for grid2, box2 in [((8, 8), (48, 16)), ((8, 4), (40, 20)), ((4, 8), (16, 48))]:
+        ref2 = None
+        for nslice, cores in [(1, 1), (2, 2), (4, 4), (5, 3)]:
+            inst = dict(file=f2, shape=(128, 64), grid=grid2, box=box2, cores=cores, nslice=nslice, mask=True, name="cross2")
+            o = run_schedule(inst, (), mode="sync")
+            ctx.count("cross_layout_runs")
+            if o.outcome != "ok":
+                continue
+            if ref2 is None:
+                ref2 = o
+                continue
+            db = float(np.nanmax(np.abs(o.bkg.astype(float) - ref2.bkg.astype(float))))
+            dr = float(np.nanmax(np.abs(o.rms.astype(float) - ref2.rms.astype(float))))
+            worst2 = max(worst2, db, dr)
+            if max(db, dr) > 0.25:
+                ctx.violation("maps for %d requested stripes differ from the single-stripe maps by up to %.3g (bkg) / %.3g (rms) local sigma "
+                              "(128x64 image on a 0.05 sigma/row ramp, grid %r, box %r)" % (nslice, db, dr, grid2, box2),
+                              "stripe_dependence|ramp,grid=%r,box=%r,nslice=%d" % (grid2, box2, nslice), clause="cross_layout",
+                              case=dict(nslice=nslice, cores=cores))
+    cov["cross_layout"] = dict(max_abs_difference_in_sigma=worst, max_abs_difference_nonsquare_box=worst2, threshold=0.25,
+                               image=[rows, cols], grid=grid, box=box)
 
 
 def evaluate(clause, case, ctx):
